@@ -550,6 +550,80 @@ def unit_protocol(rec: Rec, n: int, offset: int) -> None:
     hyp.run(rec, c09.backpressure_cases(), body_p, n, seed_offset=offset, max_root_causes=3)
 
 
+EMPTY_PATTERNS = ["iter_chunks", "readchunk_loop", "read", "readany", "iter_any", "iter_chunked", "readline", "readchunk_once"]
+
+
+def check_empty(rec: Rec, case: dict) -> None:
+    """Body-less messages (HEAD, 204, 304, Content-Length: 0) share ONE reader object per process: whatever pattern read the
+    previous ones, the next reader still gets no bytes and an end of stream after finitely many steps."""
+    from aiohttp.streams import EMPTY_PAYLOAD
+
+    loop = new_loop()
+    try:
+        async def use(pattern: str) -> int:
+            s = EMPTY_PAYLOAD
+            steps = 0
+            if pattern == "iter_chunks":
+                async for data, _end in s.iter_chunks():
+                    steps += 1
+                    if data or steps > 20:
+                        return -steps
+            elif pattern == "readchunk_loop":
+                while True:
+                    data, end = await s.readchunk()
+                    steps += 1
+                    if data or steps > 20:
+                        return -steps
+                    if not end:
+                        break
+            elif pattern == "readchunk_once":
+                await s.readchunk()
+            elif pattern == "read":
+                if await s.read():
+                    return -1
+            elif pattern == "readany":
+                if await s.readany():
+                    return -1
+            elif pattern == "readline":
+                if await s.readline():
+                    return -1
+            elif pattern == "iter_any":
+                async for _d in s.iter_any():
+                    steps += 1
+                    if steps > 20:
+                        return -steps
+            elif pattern == "iter_chunked":
+                async for _d in s.iter_chunked(8):
+                    steps += 1
+                    if steps > 20:
+                        return -steps
+            return steps
+
+        async def go():
+            for k, pattern in enumerate(case["uses"]):
+                r = await use(pattern)
+                if r < 0:
+                    raise Violation("empty-body-never-ends", f"body-less message #{k + 1} read with {pattern} after {case['uses'][:k]}: data or no end of stream after {-r} steps")
+
+        loop.drive(go(), max_time=10)
+    finally:
+        loop.shutdown()
+    rec.case(case, len(case["uses"]) >= 2, ["empty-payload"])
+
+
+def unit_empty(rec: Rec) -> None:
+    rec.exhaustive = True
+    for uses in itertools.product(EMPTY_PATTERNS, repeat=3):
+        case = {"uses": list(uses)}
+        try:
+            check_empty(rec, case)
+        except Violation as v:
+            if v.key in rec.muted:
+                continue
+            rec.fail(v.key, v.msg, case)
+            rec.muted.add(v.key)
+
+
 def units(tier: str, seed: int) -> list[Unit]:
     us: list[Unit] = []
     if tier == "quick":
@@ -559,6 +633,7 @@ def units(tier: str, seed: int) -> list[Unit]:
     for i in range(8):
         us.append(Unit(f"hyp{i}", unit_hyp, {"n": nh, "offset": i}))
     us.append(Unit("multisep", unit_multisep, {"n": nh}))
+    us.append(Unit("empty-payload", unit_empty, {}))
     for i in range(4):
         us.append(Unit(f"protocol{i}", unit_protocol, {"n": 30 if tier == "quick" else 1500, "offset": 700 + i}))
     for L in range(1, length + 1):
@@ -572,4 +647,7 @@ def units(tier: str, seed: int) -> list[Unit]:
 
 
 def replay(rec: Rec, case: dict) -> None:
+    if "uses" in case:
+        check_empty(rec, case)
+        return
     execute(case)
